@@ -164,6 +164,27 @@ def nat_lookahead(h):
             # with a filter in the pipeline delivered rows are a subsequence; measure against rows that passed
             ok = (worst[0] <= BOUND if not filt else worst[0] <= N // 2 + BOUND)
             h.check(ok, 'lookahead:' + '+'.join(chosen), (chosen, N, shape), 'look-ahead <= %d' % BOUND, (got[0], worst[0]))
+        # a source that knows its length (a progress-bar wrapper, a lazy query result) and still produces its rows one by one
+        for N in (300, 1500):
+            pulled, delivered, worst = [0], [0], [0]
+
+            class SizedLazy:
+                def __len__(self):
+                    return N
+
+                def __iter__(self):
+                    for i in range(N):
+                        pulled[0] += 1
+                        yield {'a': i, 'b': 'x%d' % i}
+
+            def sink(rows):
+                for r in rows:
+                    delivered[0] += 1
+                    worst[0] = max(worst[0], pulled[0] - delivered[0])
+                    yield r
+            got = h.run(lambda: Flow(SizedLazy(), set_type('a', type='integer'), sink).process())
+            h.check(got[0] == 'ok' and worst[0] <= BOUND and delivered[0] == N, 'lookahead:sized-lazy-source', N, 'look-ahead <= %d' % BOUND,
+                    (got[0], worst[0], delivered[0]))
         # histories / options the random stages do not reach
         from dataflows import load
         for case in ('load-limit_rows', 'checkpoint-after-an-interrupted-run', 'load-pair'):
